@@ -31,9 +31,25 @@ package client
 //@ func (*Client).Query
 //@   partial
 //@   ensures[C15] old(fd.forceFailureErr) != nil ==> result1 == old(fd.forceFailureErr) && unchangedAll()
+// C02/C04/C17: the search the client performs is the one the request describes (call-site clauses: arg.<p> is the
+// callee's parameter p; SearchData itself is C02/C04's subject in package core and is opaque here)
+//@   opaque (*Table).SearchData
+//@   callsite[C02,C04,C17] (*Client).getTable: arg.tableName == old(input.TableName == nil ? "" : *input.TableName)
+//@   callsite[C02,C04,C17] (*Table).SearchData: arg.t == table && !arg.input.Scan && !arg.input.started && arg.input.ConditionExpression == nil &&
+//@                arg.input.Index == old(input.IndexName == nil ? "" : *input.IndexName) &&
+//@                arg.input.ScanIndexForward == (old(input.ScanIndexForward) == nil || old(*input.ScanIndexForward)) &&
+//@                arg.input.KeyConditionExpression == old(input.KeyConditionExpression == nil ? "" : *input.KeyConditionExpression) &&
+//@                arg.input.FilterExpression == old(input.FilterExpression == nil ? "" : *input.FilterExpression) &&
+//@                arg.input.Limit == old(input.Limit == nil ? 0 : *input.Limit) && arg.input.Aliases == old(input.ExpressionAttributeNames)
 //@ func (*Client).Scan
 //@   partial
 //@   ensures[C15] old(fd.forceFailureErr) != nil ==> result1 == old(fd.forceFailureErr) && unchangedAll()
+//@   opaque (*Table).SearchData
+//@   callsite[C02,C04,C17] (*Client).getTable: arg.tableName == old(input.TableName == nil ? "" : *input.TableName)
+//@   callsite[C02,C04,C17] (*Table).SearchData: arg.t == table && arg.input.Scan && arg.input.ScanIndexForward && !arg.input.started && arg.input.ConditionExpression == nil &&
+//@                arg.input.KeyConditionExpression == "" && arg.input.Index == old(input.IndexName == nil ? "" : *input.IndexName) &&
+//@                arg.input.FilterExpression == old(input.FilterExpression == nil ? "" : *input.FilterExpression) &&
+//@                arg.input.Limit == old(input.Limit == nil ? 0 : *input.Limit) && arg.input.Aliases == old(input.ExpressionAttributeNames)
 //@ func (*Client).TransactWriteItems
 //@   partial
 //@   ensures[C15] old(fd.forceFailureErr) != nil ==> result1 == old(fd.forceFailureErr) && unchangedAll()
@@ -112,3 +128,116 @@ package client
 //@   partial
 //@   callsite[C19] executeGetRequest: arg.fd == fd && arg.getInput != nil && arg.getInput.TableName != nil && *arg.getInput.TableName == tableName && arg.getInput.Key == req &&
 //@                arg.getInput.ConsistentRead == reqs.ConsistentRead && arg.getInput.ProjectionExpression == reqs.ProjectionExpression && arg.getInput.ExpressionAttributeNames == reqs.ExpressionAttributeNames
+
+// the core query a Query request is turned into
+//@ func mapDynamoToTypesQueryInput
+//@   partial
+//@   requires input != nil
+//@   ensures[C02,C04,C17] result.Index == indexName && result.Aliases == input.ExpressionAttributeNames && !result.Scan && !result.started && result.ConditionExpression == nil
+//@   ensures[C02,C04,C17] result.Limit == (input.Limit == nil ? 0 : *input.Limit)
+//@   ensures[C02,C04,C17] result.KeyConditionExpression == (input.KeyConditionExpression == nil ? "" : *input.KeyConditionExpression)
+//@   ensures[C02,C04,C17] result.FilterExpression == (input.FilterExpression == nil ? "" : *input.FilterExpression)
+//@   ensures[C02,C04,C17] result.ScanIndexForward == (input.ScanIndexForward != nil && *input.ScanIndexForward)
+
+// ---- C10 / C14: SDK value -> internal item, one level ---------------------------------------------
+// No clause names a modifies set: every function below changes no object that existed before the call
+// (frame obligations on every heap), and what it returns is allocated by the call.
+//@ func toStringSlice
+//@   ensures[C14] fresh(arr(result)) && len(result) == len(slice)
+//@   ensures[C10,C14] forall j int :: {result[j]} 0 <= j && j < len(slice) ==> fresh(result[j]) && result[j] != nil && *result[j] == slice[j]
+//@   loop 1:
+//@     invariant fresh(arr(output)) && arr(output) != 0 && len(output) == rangeindex + 1 && rangeindex >= -1 && rangeindex < len(slice)
+//@     invariant forall j int :: {output[j]} 0 <= j && j <= rangeindex ==> fresh(output[j]) && output[j] != nil && *output[j] == slice[j]
+
+// OnlyX: exactly the field of kind X of an internal item is set
+//@ pred NoScalars(r *types.Item) := r.S == nil && r.N == nil && r.BOOL == nil && r.NULL == nil
+//@ pred NoBytes(r *types.Item) := len(r.B) == 0 && len(r.BS) == 0
+//@ pred NoSets(r *types.Item) := len(r.SS) == 0 && len(r.NS) == 0
+//@ pred NoDocs(r *types.Item) := r.L == nil && r.M == nil
+
+//@ func mapDynamoToTypesItem
+//@   ensures[C14] fresh(result) && result != nil
+//@   ensures[C10,C14] typeis(item, "*ddb2types.AttributeValueMemberS") ==> result.S != nil && fresh(result.S) && *result.S == item.(*ddb2types.AttributeValueMemberS).Value &&
+//@                result.N == nil && result.BOOL == nil && result.NULL == nil && NoBytes(result) && NoSets(result) && NoDocs(result)
+//@   ensures[C10,C14] typeis(item, "*ddb2types.AttributeValueMemberN") ==> result.N != nil && fresh(result.N) && *result.N == item.(*ddb2types.AttributeValueMemberN).Value &&
+//@                result.S == nil && result.BOOL == nil && result.NULL == nil && NoBytes(result) && NoSets(result) && NoDocs(result)
+//@   ensures[C10,C14] typeis(item, "*ddb2types.AttributeValueMemberBOOL") ==> result.BOOL != nil && fresh(result.BOOL) && *result.BOOL == item.(*ddb2types.AttributeValueMemberBOOL).Value &&
+//@                result.S == nil && result.N == nil && result.NULL == nil && NoBytes(result) && NoSets(result) && NoDocs(result)
+//@   ensures[C10] typeis(item, "*ddb2types.AttributeValueMemberB") ==> result.B == item.(*ddb2types.AttributeValueMemberB).Value && NoScalars(result) && len(result.BS) == 0 && NoSets(result) && NoDocs(result)
+//@   ensures[C10] typeis(item, "*ddb2types.AttributeValueMemberBS") ==> result.BS == item.(*ddb2types.AttributeValueMemberBS).Value && NoScalars(result) && len(result.B) == 0 && NoSets(result) && NoDocs(result)
+//@   ensures[C14] typeis(item, "*ddb2types.AttributeValueMemberB") ==> arr(result.B) == 0 || fresh(arr(result.B))
+//@   ensures[C14] typeis(item, "*ddb2types.AttributeValueMemberBS") ==> arr(result.BS) == 0 || fresh(arr(result.BS))
+//@   ensures[C10,C14] typeis(item, "*ddb2types.AttributeValueMemberSS") ==> len(result.SS) == len(item.(*ddb2types.AttributeValueMemberSS).Value) && fresh(arr(result.SS)) && NoScalars(result) && NoBytes(result) && len(result.NS) == 0 && NoDocs(result) &&
+//@                forall j int :: {result.SS[j]} 0 <= j && j < len(result.SS) ==> result.SS[j] != nil && fresh(result.SS[j]) && *result.SS[j] == item.(*ddb2types.AttributeValueMemberSS).Value[j]
+//@   ensures[C10,C14] typeis(item, "*ddb2types.AttributeValueMemberNS") ==> len(result.NS) == len(item.(*ddb2types.AttributeValueMemberNS).Value) && fresh(arr(result.NS)) && NoScalars(result) && NoBytes(result) && len(result.SS) == 0 && NoDocs(result) &&
+//@                forall j int :: {result.NS[j]} 0 <= j && j < len(result.NS) ==> result.NS[j] != nil && fresh(result.NS[j]) && *result.NS[j] == item.(*ddb2types.AttributeValueMemberNS).Value[j]
+//@   ensures[C10,C14] typeis(item, "*ddb2types.AttributeValueMemberL") ==> len(result.L) == len(item.(*ddb2types.AttributeValueMemberL).Value) && fresh(arr(result.L)) && NoScalars(result) && NoBytes(result) && NoSets(result) && result.M == nil &&
+//@                forall j int :: {result.L[j]} 0 <= j && j < len(result.L) ==> result.L[j] != nil && fresh(result.L[j])
+//@   ensures[C10,C14] typeis(item, "*ddb2types.AttributeValueMemberM") ==> result.M != nil && fresh(result.M) && dom(result.M) == dom(item.(*ddb2types.AttributeValueMemberM).Value) && NoScalars(result) && NoBytes(result) && NoSets(result) && result.L == nil &&
+//@                forall k string :: {result.M[k]} k in result.M ==> result.M[k] != nil && fresh(result.M[k])
+//@   ensures[C10,C14] typeis(item, "*ddb2types.AttributeValueMemberNULL") ==> result.NULL != nil && fresh(result.NULL) && *result.NULL && result.S == nil && result.N == nil && result.BOOL == nil && NoBytes(result) && NoSets(result) && NoDocs(result)
+
+//@ func mapDynamoToTypesAttributeDefinitionMapOrList
+//@   ensures[C14] fresh(result) && result != nil
+//@   ensures[C10,C14] typeis(item, "*ddb2types.AttributeValueMemberL") ==> len(result.L) == len(item.(*ddb2types.AttributeValueMemberL).Value) && fresh(arr(result.L)) && NoScalars(result) && NoBytes(result) && NoSets(result) && result.M == nil &&
+//@                forall j int :: {result.L[j]} 0 <= j && j < len(result.L) ==> result.L[j] != nil && fresh(result.L[j])
+//@   ensures[C10,C14] typeis(item, "*ddb2types.AttributeValueMemberM") ==> result.M != nil && fresh(result.M) && dom(result.M) == dom(item.(*ddb2types.AttributeValueMemberM).Value) && NoScalars(result) && NoBytes(result) && NoSets(result) && result.L == nil &&
+//@                forall k string :: {result.M[k]} k in result.M ==> result.M[k] != nil && fresh(result.M[k])
+//@   ensures[C10,C14] !typeis(item, "*ddb2types.AttributeValueMemberL") && !typeis(item, "*ddb2types.AttributeValueMemberM") ==> result.NULL != nil && fresh(result.NULL) && *result.NULL && result.S == nil && result.N == nil && result.BOOL == nil && NoBytes(result) && NoSets(result) && NoDocs(result)
+//@   loop 1:
+//@     invariant fresh(arr(output)) && arr(output) != 0 && len(output) == rangeindex + 1 && rangeindex >= -1 && rangeindex < len(itemL.Value)
+//@     invariant forall j int :: {output[j]} 0 <= j && j <= rangeindex ==> output[j] != nil && fresh(output[j])
+//@   loop 2:
+//@     invariant fresh(output) && output != nil && dom(output) == visited
+//@     invariant forall k string :: {output[k]} k in output ==> output[k] != nil && fresh(output[k])
+
+//@ func mapDynamoToTypesMapItem
+//@   ensures[C14] result == nil || fresh(result)
+//@   ensures[C10] len(input) == 0 ==> result == nil
+//@   ensures[C10] len(input) != 0 ==> result != nil && dom(result) == dom(input)
+//@   ensures[C14] forall k string :: {result[k]} k in result ==> fresh(result[k]) && result[k] != nil
+//@   loop 1:
+//@     invariant fresh(output) && output != nil && dom(output) == visited
+//@     invariant forall k string :: {output[k]} k in output ==> fresh(output[k]) && output[k] != nil
+
+// ---- C10 / C14: internal item -> SDK value, one level ------------------------------------------------
+// Together with the clauses of mapDynamoToTypesItem above these give the one-level round trip: a value of kind K is
+// mapped to an item with exactly K's field set, and such an item is mapped back to a value of kind K with the same
+// payload (children related by the same two functions: structural induction on the value tree is the meta-step).
+//@ pred Unset(r *types.Item) := r.S == nil && r.N == nil && r.BOOL == nil && r.NULL == nil && len(r.B) == 0 && len(r.BS) == 0 && len(r.SS) == 0 && len(r.NS) == 0 && r.L == nil && r.M == nil
+
+//@ func toStringValueSlice
+//@   ensures[C14] fresh(arr(result)) && len(result) == len(slice)
+//@   ensures[C10] forall j int :: {result[j]} 0 <= j && j < len(slice) ==> result[j] == *slice[j]
+//@   loop 1:
+//@     invariant fresh(arr(output)) && arr(output) != 0 && len(output) == rangeindex + 1 && rangeindex >= -1 && rangeindex < len(slice)
+//@     invariant forall j int :: {output[j]} 0 <= j && j <= rangeindex ==> output[j] == *slice[j]
+
+//@ func mapTypesToDynamoItem
+//@   ensures[C14] result != nil && fresh(result)
+//@   ensures[C10] item.S != nil && item.N == nil && item.BOOL == nil && NoBytes(item) && len(item.NS) == 0 ==> typeis(result, "*ddb2types.AttributeValueMemberS") && result.(*ddb2types.AttributeValueMemberS).Value == *item.S
+//@   ensures[C10] item.N != nil && item.BOOL == nil && NoBytes(item) ==> typeis(result, "*ddb2types.AttributeValueMemberN") && result.(*ddb2types.AttributeValueMemberN).Value == *item.N
+//@   ensures[C10] item.BOOL != nil && len(item.B) == 0 ==> typeis(result, "*ddb2types.AttributeValueMemberBOOL") && result.(*ddb2types.AttributeValueMemberBOOL).Value == *item.BOOL
+//@   ensures[C10] item.NULL != nil && *item.NULL && item.S == nil && item.N == nil && item.BOOL == nil && NoBytes(item) && NoSets(item) && NoDocs(item) ==> typeis(result, "*ddb2types.AttributeValueMemberNULL") && result.(*ddb2types.AttributeValueMemberNULL).Value
+//@   ensures[C10] arr(item.B) != 0 && NoScalars(item) && len(item.BS) == 0 && NoSets(item) && NoDocs(item) ==> typeis(result, "*ddb2types.AttributeValueMemberB") && result.(*ddb2types.AttributeValueMemberB).Value == item.B
+//@   ensures[C10] arr(item.BS) != 0 && NoScalars(item) && len(item.B) == 0 && NoSets(item) && NoDocs(item) ==> typeis(result, "*ddb2types.AttributeValueMemberBS") && result.(*ddb2types.AttributeValueMemberBS).Value == item.BS
+//@   ensures[C14] typeis(result, "*ddb2types.AttributeValueMemberB") ==> fresh(arr(result.(*ddb2types.AttributeValueMemberB).Value))
+//@   ensures[C14] typeis(result, "*ddb2types.AttributeValueMemberBS") ==> fresh(arr(result.(*ddb2types.AttributeValueMemberBS).Value))
+//@   ensures[C10] arr(item.L) != 0 && NoScalars(item) && NoBytes(item) && NoSets(item) && item.M == nil ==> typeis(result, "*ddb2types.AttributeValueMemberL") && len(result.(*ddb2types.AttributeValueMemberL).Value) == len(item.L)
+//@   ensures[C10] item.M != nil && NoScalars(item) && NoBytes(item) && NoSets(item) && item.L == nil ==> typeis(result, "*ddb2types.AttributeValueMemberM") && dom(result.(*ddb2types.AttributeValueMemberM).Value) == dom(item.M)
+
+//@ func mapTypesToDynamoAttributeDefinitionMapOrList
+//@   ensures[C14] result != nil && fresh(result)
+//@   ensures[C10] arr(item.L) != 0 ==> typeis(result, "*ddb2types.AttributeValueMemberL") && len(result.(*ddb2types.AttributeValueMemberL).Value) == len(item.L)
+//@   ensures[C10] arr(item.L) == 0 && item.M != nil ==> typeis(result, "*ddb2types.AttributeValueMemberM") && dom(result.(*ddb2types.AttributeValueMemberM).Value) == dom(item.M)
+//@   ensures[C10] len(item.L) == 0 && len(item.M) == 0 ==> typeis(result, "*ddb2types.AttributeValueMemberNULL") && result.(*ddb2types.AttributeValueMemberNULL).Value
+//@   loop 1:
+//@     invariant fresh(arr(output)) && arr(output) != 0 && len(output) == rangeindex + 1 && rangeindex >= -1 && rangeindex < len(item.L)
+//@   loop 2:
+//@     invariant fresh(output) && output != nil && dom(output) == visited
+
+//@ func mapTypesToDynamoMapItem
+//@   ensures[C14] fresh(result) && result != nil
+//@   ensures[C10] dom(result) == dom(input)
+//@   loop 1:
+//@     invariant fresh(output) && output != nil && dom(output) == visited
